@@ -45,6 +45,7 @@ func runC45(c *Ctx) {
 	c.check(len(seen) >= 5, "C45.panic-site", "reachable explicit panics", nil, fmt.Sprintf("%d distinct sites enumerated", len(seen)), fmt.Sprintf("only %d sites enumerated (call graph lost?)", len(seen)))
 	c45SwitchCoverage(c)
 	c45Progress(c)
+	c45Subpacket(c)
 }
 
 func c45Table() map[string]string {
